@@ -13,9 +13,35 @@ def split_lp(model_line):
     from ..core import default_split
     m, s, cls = default_split(model_line)
     return None, s, cls           # the LP step is not modelled: no correspondence for this family, oracle only
+import re
+_PLAIN = re.compile(r"^x\d+$")
+def lp_gate(case):
+    """Re-statement of the root-LP gate (search/mod.rs:96-212, props/mod.rs extract_linear_system,
+    mode.rs lp_objective) for propagator-level models: the step runs iff the objective is a plain variable
+    or its opposite, that variable occurs in a row extracted from Add<VarId,VarId> / LessThanOrEquals<VarId,VarId>
+    propagators, and the system has >= 1 row and >= 2 variables."""
+    parts = [p.strip() for p in case.split(";")]
+    lpvars, rows, obj = set(), 0, None
+    for p in parts[1:]:
+        t = p.split()
+        if not t: continue
+        if t[0] == "add" and all(_PLAIN.match(x) for x in t[1:4]):
+            lpvars |= set(t[1:4]); rows += 1
+        elif t[0] in ("leq", "geq") and all(_PLAIN.match(x) for x in t[1:3]):
+            lpvars |= set(t[1:3]); rows += 1
+        elif t[0] == "min":
+            v = t[1]
+            obj = v if _PLAIN.match(v) else (v[4:-1] if v.startswith("opp(") and _PLAIN.match(v[4:-1]) else None)
+        elif t[0] == "max":
+            obj = t[1] if _PLAIN.match(t[1]) else None       # max v = minimize(opposite v)
+    return obj is not None and obj in lpvars and rows >= 1 and len(lpvars) >= 2
 def classify_lp(case, impl, cls):
-    # attribution: a failure is put down to finding D10 only when the root LP step actually ran (hook H5 flag)
-    return cls or ("lp_root" if impl.endswith(" lp=1") else None)
+    # attribution: a failure is put down to finding D10 only when the gate says the root LP step runs on the
+    # UNCHANGED code for this case and the hook-H5 flag confirms that it ran
+    return cls or ("lp_root" if (lp_gate(case) and impl.endswith(" lp=1")) else None)
+def corr_lp(case, impl, mpart):
+    # correspondence for this family = the implementation runs the LP step exactly when the gate predicts it
+    return impl.endswith(" lp=1") == lp_gate(case)
 def judge_lp(case, impl, spec):
     return plevel.judge_solve(case, impl[:-5] if impl.endswith(" lp=1") else impl, spec)
 FAMILIES = [
@@ -24,3 +50,4 @@ FAMILIES = [
     Family("opt_lp_on", "solve", lp_on, split=split_lp, nontrivial=ec.nontrivial_solve, prop_judge=judge_lp),
 ]
 FAMILIES[-1].classify = classify_lp
+FAMILIES[-1].corr = corr_lp
